@@ -4,7 +4,8 @@ import numpy as np
 
 RULE = ("point sets = every ordered selection of 2-4 points from an 8-point lattice block (collinear runs, 3-4-5 rectangles, exact ties included) "
         "x balancing factor {0, 1/5, 2/5, 1/2, 1} x branching limit {-1,1,2,3} x root exemption x soma given or first point x sorting on/off "
-        "(options cycled), plus random clouds of 5-120 points in general position (float64 and float32, some far from the origin); the observed "
+        "(options cycled), plus random clouds of 5-120 points in general position (float64 and float32, some far from the origin); a third of the clouds are handed to a transform object that "
+        "was applied to tiny clouds before (histories: no call may leave state behind); the observed "
         "tree is validated by Trace_Mst: TLC re-runs the greedy machine and requires a cost-minimal admissible pair among the observed edges at "
         "every attachment; non-trivial = at least 4 points; distinct by (points, options)")
 Q = 10000          # distances in units of 1e-4
@@ -36,6 +37,8 @@ def execute(c):
         tf = PointsToMST(furcations=c["k"], exclude_soma=c["ex"], sort=c["sort"])
     else:
         tf = PointsToCuntzMST(bf=c["p"] / c["q"], furcations=c["k"], exclude_soma=c["ex"], sort=c["sort"])
+    for prev in c.get("prev", []):         # the same transform object has been applied to other (smaller) clouds before: no call may leave state behind
+        tf(np.array(prev, dtype=dt))
     t = tf(pts.copy(), soma) if soma is not None else tf(pts.copy())
     allp = np.concatenate([[soma], pts]) if soma is not None else pts
     n = len(allp)
@@ -78,7 +81,10 @@ def lattice_cases(ctx, q):
                 if not pts:
                     continue
             api = "mst" if bf == (0, 1) and t % 3 == 0 else "cuntz"
-            cases.append(build_case(pts, soma, bf, k, ex, sort, "f64", api))
+            c = build_case(pts, soma, bf, k, ex, sort, "f64", api)
+            if t % 4 == 1:
+                c["prev"] = [[list(LATTICE[0]), list(LATTICE[7])]]
+            cases.append(c)
     return cases
 
 
@@ -95,7 +101,10 @@ def random_cases(ctx, count, nmax):
         bf = BFS[t % 5]; k = [-1, 2, 3, 1, -1][(t // 5) % 5]; ex = (t // 7) % 2
         soma = None if t % 2 else list(pts.mean(axis=0))
         api = "mst" if bf == (0, 1) and t % 2 == 0 else "cuntz"
-        out.append(build_case([list(r) for r in pts], soma, bf, k, ex, t % 3 != 1, dtype, api))
+        c = build_case([list(r) for r in pts], soma, bf, k, ex, t % 3 != 1, dtype, api)
+        if t % 3 == 2:              # a history: the transform object is first used on tiny clouds
+            c["prev"] = [[list(r) for r in pts[:2]]] + ([[list(r) for r in pts[2:5]]] if t % 2 else [])
+        out.append(c)
     return out
 
 
